@@ -1,5 +1,6 @@
 import RModel.Props.C01
 import RModel.Props.C08
+import RModel.Props.C03
 /-
   Cross-model composition theorems: the rename PLANNER (`RenamePlan.planRenames`, rename.rs), APPLY (`Apply.applyPlan`,
   apply.rs) and UNDO (`Undo.applyUndo`, undo.rs) are three hand-written models, each tied to the code by its own
@@ -170,5 +171,64 @@ example (cfg : Undo.Cfg) (hcfg : C01.Contract cfg) :
   planned_apply_undo_roundtrip cfg hcfg C08.T0 C08.o0 C08.vm0 C08.exTree [[b!"proj"]]
     C08.exPlan [] ⟨by decide +kernel, by decide +kernel, by decide +kernel, by decide +kernel⟩
     (by decide +kernel) (by decide +kernel)
+
+-- the CONTENT planner chained with apply --------------------------------------------------------------------------------------
+
+/-- the hunks the content planner emits for one file: one per match of `findMatches`, with any replacement texts -/
+def hunksOf (f : Path) (repl : Matcher.Match → Bytes) (ms : List Matcher.Match) : List Hunk :=
+  (C03.toEdits repl ms).map (fun e => { file := f, before := e.before, after := e.after, start := e.start, stop := e.stop })
+
+theorem editsFor_hunksOf (f : Path) (repl : Matcher.Match → Bytes) (ms : List Matcher.Match) :
+    editsFor (hunksOf f repl ms) f = C03.toEdits repl ms := by
+  unfold editsFor hunksOf
+  rw [List.filter_eq_self.mpr (by
+    intro h hm
+    obtain ⟨e, _, rfl⟩ := List.mem_map.mp hm
+    simp)]
+  rw [List.map_map]
+  conv => rhs; rw [← List.map_id (C03.toEdits repl ms)]
+  apply List.map_congr_left
+  intro e _
+  rfl
+
+/-- SCAN ∘ APPLY for contents (C03 + C02).  A file `f` with valid UTF-8 bytes `c`; the matches of ANY non-empty list of
+    ASCII variants in it (leftmost-longest, boundary-checked: `Matcher.findMatches`); ANY replacement text per match; ANY
+    renames of the usual shape next to it (the file itself, its directory, other nodes).  If `applyPlan` reports success,
+    the file — at the place its renames take it to — holds exactly the left-to-right substitution of the matches:
+    every match replaced, every other byte kept, its mode kept.  Nothing is assumed about the hunks: their consistency is
+    `C03.findMatches_Consistent`. -/
+theorem scanned_file_applied (t : Tree) (rs : List Ren) (f : Path) (c : Bytes) (m : Nat)
+    (vs : List Bytes) (repl : Matcher.Match → Bytes)
+    (hne : vs ≠ []) (hc : Utf8.valid c = true) (hascii : ∀ v ∈ vs, ∀ b ∈ v, b.toNat < 128)
+    (hvalid : ∀ v ∈ vs, Utf8.valid v = true)
+    (hrepl : ∀ mt b, (repl mt).head? = some b → Edits.isCont b = false)
+    (hms : Matcher.findMatches vs c ≠ [])
+    (h1 : C02ren.LastOnly rs) (h2 : C02ren.DistinctSources rs) (h3 : C02ren.TreeWF t) (h4 : C02ren.KindsOk t rs)
+    (hl : lookup t f = some (.file c m))
+    (hok : (applyPlan t ⟨hunksOf f repl (Matcher.findMatches vs c), rs⟩).outcome = .ok) :
+    lookup (applyPlan t ⟨hunksOf f repl (Matcher.findMatches vs c), rs⟩).tree (C02ren.finalPath rs f) =
+      some (.file (Edits.spec c 0 (C03.toEdits repl (Matcher.findMatches vs c))) m) := by
+  have hcons := (C03.findMatches_Consistent vs c hne hc hascii hvalid repl hrepl).1
+  have hf : f ∈ sortedFiles (hunksOf f repl (Matcher.findMatches vs c)) := by
+    obtain ⟨m0, ms, hm⟩ := List.exists_cons_of_ne_nil hms
+    have : ({ file := f, before := m0.text, after := repl m0, start := m0.start, stop := m0.stop } : Hunk) ∈
+        hunksOf f repl (Matcher.findMatches vs c) := by
+      rw [hm]; simp [hunksOf, C03.toEdits]
+    exact PathOrder.file_mem_sortedFiles this
+  have := C02ren.apply_exact_content t ⟨hunksOf f repl (Matcher.findMatches vs c), rs⟩ h1 h2 h3 h4 hok f c m hf hl
+    (by rw [editsFor_hunksOf]; exact hcons)
+  rw [editsFor_hunksOf] at this
+  exact this
+
+/-- non-vacuity: `x foo_bar y / FooBar` with the variants `foo_bar`, `FooBar`, inside a directory that is renamed -/
+example :
+    let t : Tree := [([b!"foo_bar"], .dir 493), ([b!"foo_bar", b!"a.txt"], .file b!"x foo_bar y\nFooBar\n" 420)]
+    let vs : List Bytes := [b!"foo_bar", b!"FooBar"]
+    let repl : Matcher.Match → Bytes := fun mt => if mt.text == b!"foo_bar" then b!"baz_qux" else b!"BazQux"
+    let rs : List Ren := [⟨[b!"foo_bar"], [b!"baz_qux"], .dir⟩]
+    Matcher.findMatches vs b!"x foo_bar y\nFooBar\n" ≠ [] ∧
+    (applyPlan t ⟨hunksOf [b!"foo_bar", b!"a.txt"] repl (Matcher.findMatches vs b!"x foo_bar y\nFooBar\n"), rs⟩).outcome = .ok ∧
+    lookup (applyPlan t ⟨hunksOf [b!"foo_bar", b!"a.txt"] repl (Matcher.findMatches vs b!"x foo_bar y\nFooBar\n"), rs⟩).tree
+      [b!"baz_qux", b!"a.txt"] = some (.file b!"x baz_qux y\nBazQux\n" 420) := by decide +kernel
 
 end Compose
